@@ -412,7 +412,7 @@ def statement_failures(exp, got, keys=('raised', 'converged', 'num_iterations', 
 # ----------------------------------------------------------------------------- (1) scripted correspondence
 def run_scripted(seed, tier, extra_tables=None):
     rng = random.Random(seed)
-    per_shape = 2 if tier == 'quick' else 16
+    per_shape = 2 if tier == 'quick' else 40
     tables = []
     for sh in SHAPES:
         for _ in range(per_shape):
@@ -620,6 +620,13 @@ def check_real(spec, n, ffp, tols):
             r, exc, _ = call_optimize(g, 0.0, k, False, ffp)
             if exc is not None:
                 return checks, fails          # e.g. a singular system raising: outside this property
+            if r.num_iterations != k or len(r.iteration_results) != k:
+                # an early stop with tol = 0 needs chi2_prev + eps <= 0; with chi2 >= 0 it contradicts the documented rule
+                seen = [unbits(bits(r.initial_chi2))] + [unbits(bits(it.chi2)) for it in r.iteration_results if it.chi2 is not None]
+                if all(x >= 0.0 for x in seen):
+                    fail('run with tol=0 stopped before max_iter although every chi2 is >= 0', tol=0.0, max_iter=k,
+                         got=report_dict(r))
+                return checks, fails
         states.append(g)
         c.append(unbits(chi2_bits_of(g)))
     finite = all(x == x and abs(x) != INF for x in c)
@@ -704,11 +711,17 @@ def check_real(spec, n, ffp, tols):
     return checks, fails, {'behaviour': beh, 'chi2': c}
 
 
+def _real_task(args):
+    spec, n, ffp, tols = args
+    return check_real(spec, n, ffp, tols)
+
+
 def run_real(seed, tier):
     rng = random.Random(seed * 7919 + 1)
-    per = 6 if tier == 'quick' else 60
+    per = 16 if tier == 'quick' else 400
     res = {'graphs': 0, 'checks': 0, 'failures': [], 'hist': {'kind': {}, 'behaviour': {}, 'n': {}, 'fix_first_pose': {}}, 'samples': []}
     tols = [0.0, 1e-4, 1e-2, 1e-1, 1e-12, 1e-8]
+    tasks, meta = [], []
     for kind in ('R2', 'R3', 'SE2', 'SE3'):
         for regime in ('converging', 'rough'):
             for j in range(per):
@@ -718,19 +731,27 @@ def run_real(seed, tier):
                 spec = gen_real_spec(rng, kind, noise, init_noise, nv, lm)
                 n = rng.choice([3, 4, 5, 6]) if tier == 'quick' else rng.choice([4, 5, 6, 6])
                 ffp = rng.random() < 0.7      # without a fixed vertex the system is gauge-singular for odometry-only graphs
-                out = check_real(spec, n, ffp, tols if tier != 'quick' else tols[:4])
-                if len(out) == 2:
-                    res['hist']['behaviour']['raised_in_solver(skipped)'] = res['hist']['behaviour'].get('raised_in_solver(skipped)', 0) + 1
-                    continue
-                checks, fails, info = out
-                res['graphs'] += 1
-                res['checks'] += checks
-                res['failures'] += fails
-                beh = info['behaviour']
-                for key, val in (('kind', kind + ('+landmarks' if lm else '')), ('behaviour', beh), ('n', n), ('fix_first_pose', ffp)):
-                    res['hist'][key][str(val)] = res['hist'][key].get(str(val), 0) + 1
-                if len(res['samples']) < 3 and beh.startswith(('diverging', 'chi2 rises')) and all(sm['behaviour'] != beh or sm['kind'] != kind for sm in res['samples']):
-                    res['samples'].append({'kind': kind, 'behaviour': beh, 'n': n, 'chi2_at_states': info['chi2'], 'splits_checked': 2 ** (n - 1) - 1})
+                tasks.append((spec, n, ffp, tols if tier != 'quick' else tols[:4]))
+                meta.append((kind, lm, n, ffp))
+    pool = multiprocessing.get_context('fork').Pool(16)
+    try:
+        outs = pool.map(_real_task, tasks, chunksize=1)
+    finally:
+        pool.close()
+        pool.join()
+    for (kind, lm, n, ffp), out in zip(meta, outs):
+        if len(out) == 2:
+            res['hist']['behaviour']['raised_in_solver(skipped)'] = res['hist']['behaviour'].get('raised_in_solver(skipped)', 0) + 1
+            continue
+        checks, fails, info = out
+        res['graphs'] += 1
+        res['checks'] += checks
+        res['failures'] += fails
+        beh = info['behaviour']
+        for key, val in (('kind', kind + ('+landmarks' if lm else '')), ('behaviour', beh), ('n', n), ('fix_first_pose', ffp)):
+            res['hist'][key][str(val)] = res['hist'][key].get(str(val), 0) + 1
+        if len(res['samples']) < 3 and beh.startswith(('diverging', 'chi2 rises')) and all(sm['behaviour'] != beh or sm['kind'] != kind for sm in res['samples']):
+            res['samples'].append({'kind': kind, 'behaviour': beh, 'n': n, 'chi2_at_states': info['chi2'], 'splits_checked': 2 ** (n - 1) - 1})
     return res
 
 
